@@ -15,7 +15,9 @@ MODULES = ['dassh.orificing']
 PROPERTY = 'C20'
 FUNCTIONS = ['dassh.orificing:Orificing._check_new_group', 'dassh.orificing:Orificing._group (loop body + suffix, cut)',
              'dassh.orificing:Orificing.distribute (loop body + suffix, cut)']
-ASSUMPTIONS = ['_estimate_optvar / np.interp (response curves) are dependencies: any positive estimate per assembly',
+ASSUMPTIONS = ['division safety inside distribute (the update factor (group_max - t_in)/(avg_max - t_in) needs positive '
+               'flows and estimates above the inlet temperature) is NOT checked: it concerns the quality of the iteration',
+               '_estimate_optvar / np.interp (response curves) are dependencies: any positive estimate per assembly',
                'the grouping sweep is verified for ANY outcome of the cut-off test (the test is replaced by free booleans), '
                'so the partition/order facts do not depend on the powers; 4 assemblies / up to 4 groups enumerated']
 NOT_DECIDED = ['convergence quality of the fixed-point iteration', 'the DASSH sub-runs driven by the optimiser (need flux files)']
@@ -138,7 +140,9 @@ def distribute_body(S, cfg):
     o.t_in = S.pos('t_in', 600.0, 650.0)
     o._dp_limit = np.zeros(n_groups)
     o._parametric = {'asm_ids': np.array([[i, 0] for i in range(n)]), 'data': []}
-    est = S.vec('optvar', n, 'pos', 700.0, 900.0)
+    # estimates of the optimisation variable (a peak temperature): above the inlet temperature
+    exc = S.vec('optvar_excess', n, 'pos', 50.0, 250.0)
+    est = np.array([o.t_in + e for e in exc], dtype=object if S.mode == 'sym' else float)
     o._estimate_optvar = lambda m, xy, res_prev, ratio: est
     m_total = S.pos('m_total', 50.0, 100.0)
     # state: group-uniform flows summing to m_total
@@ -164,10 +168,13 @@ def distribute_body(S, cfg):
         for i, l in enumerate(labels):
             if l < n_groups - 1:
                 S.le(f'distribute.dp_limit[{i}]', m2[i], m_lim[0])
+            else:
+                # the last group receives the remainder
+                S.le(f'distribute.dp_limit_last_group[{i}]', m2[i], m_lim[0])
     S.holds('distribute.iter_advances', env['iter'] == 1)
     S.eq('canary.mass_lost', sum(m2) + m2[0], m_total, canary=True)
 distribute_body.cname = 'Orificing.distribute/loop-body'
-distribute_body.run_kw = dict(max_paths=400, pool_size=10)
+distribute_body.run_kw = dict(max_paths=400, pool_size=10, check_div=False)
 
 
 def distribute_suffix(S, cfg):
@@ -203,9 +210,10 @@ def configs(tier):
            (distribute_body, dict(n_groups=2, labels=[0, 0, 1])),
            (distribute_body, dict(n_groups=2, labels=[0, 0, 1], limit=True)),
            (distribute_body, dict(n_groups=3, labels=[0, 1, 1, 2])),
-           (distribute_suffix, dict(m=[6.0, 6.0, 4.0 - 2.0], dp_limit=[0, 0], ok=True)),
+           (distribute_suffix, dict(m=[4.0, 4.0, 2.0], dp_limit=[0, 0], ok=True)),
            (distribute_suffix, dict(m=[6.0, 6.0, 3.0], dp_limit=[0, 0], ok=False)),
            (distribute_suffix, dict(m=[4.0, 4.0, 2.0], dp_limit=[1, 1], ok=False)),
+           (distribute_suffix, dict(m=[4.0, 4.0, 2.0], dp_limit=[1, 0], ok=True)),
            (distribute_suffix, dict(m=[10.0 / 3, 10.0 / 3, 10.0 / 3], dp_limit=[0, 0], ok=False))]
     if tier == 'thorough':
         out += [(check_new_group, dict(n=3)), (group_body, dict(n=5, n_groups=4)),
